@@ -53,7 +53,21 @@ pub fn format_program(program: &Program, source: &str) -> String {
     let mut docs: Vec<Doc> = program
         .statements
         .iter()
-        .map(|statement| statement_doc(&trivia, statement))
+        .zip(program.statements.iter().skip(1).map(Some).chain([None]))
+        .map(|(statement, next)| {
+            let doc = statement_doc(&trivia, statement);
+            // A type alias that ends in a tuple name keeps its comma before a `(`, see `needs_comma`.
+            match (statement, next) {
+                (Statement::TypeAlias { name_span, .. }, Some(Statement::Expression(sequence)))
+                    if sequence.chains.first().is_some_and(starts_with_paren)
+                        && !trivia.has_trailing(*name_span)
+                        && ends_in_tuple_name(&pretty::flatten(&doc)) =>
+                {
+                    pretty::concat(vec![doc, pretty::text(",")])
+                }
+                _ => doc,
+            }
+        })
         .collect();
     // Comments after the last statement have nowhere to attach, so emit them at the end.
     if !trivia.dangling.is_empty() {
@@ -164,7 +178,7 @@ fn sequence_doc(
         // comment does).
         if index > 0
             && !trivia.has_trailing(sequence.chains[index - 1].span)
-            && needs_comma(&sequence.chains[index - 1], chain)
+            && needs_comma(trivia, &sequence.chains[index - 1], chain)
         {
             rest.push(pretty::if_break(pretty::text(","), pretty::nil()));
         }
@@ -198,11 +212,32 @@ fn sequence_doc(
 }
 
 /// Whether the separator between two steps must stay a comma: a newline alone does not end a
-/// function head, so a block that starts the next step would become its body (`#'int`, `{ … }`).
-fn needs_comma(step: &Chain, next: &Chain) -> bool {
+/// function head, so a block that starts the next step would become its body (`#'int`, `{ … }`);
+/// nor does it end a tuple name, which must not be followed by a `(` (`Name`, `(x) = …`).
+fn needs_comma(trivia: &Trivia, step: &Chain, next: &Chain) -> bool {
+    let last = step.terms.last();
+    if starts_with_paren(next) {
+        return last.is_some_and(|term| {
+            ends_in_tuple_name(&pretty::flatten(&term_doc(trivia, term)))
+        });
+    }
     next.match_pattern.is_none()
         && matches!(next.terms.first(), Some(Term::Block(_)))
-        && step.terms.last().is_some_and(takes_body)
+        && last.is_some_and(takes_body)
+}
+
+/// Whether a step's text starts with a `(`: only a binding of a parenthesised pattern does.
+fn starts_with_paren(chain: &Chain) -> bool {
+    chain
+        .match_pattern
+        .as_ref()
+        .is_some_and(|pattern| render_match(pattern).starts_with('('))
+}
+
+/// Whether rendered text ends in a tuple name (`Name`, `=Name`, `#'t -> Name`, …).
+fn ends_in_tuple_name(text: &str) -> bool {
+    let word = |c: char| c.is_ascii_alphanumeric() || c == '_';
+    text[text.trim_end_matches(word).len()..].starts_with(|c: char| c.is_ascii_uppercase())
 }
 
 /// Whether a `{ … }` that follows this term is read as the body of the function it heads.
